@@ -1,11 +1,13 @@
 #!/bin/bash
 # Run every claimed check (quick tier by default) and print exit codes.  usage: tools/run_all.sh [tier] [seed]
 tier=${1:-quick}; seed=${2:-0}
-cd /verif
+cd "$(dirname "$0")/.."   # the tree this script belongs to (a vp-run snapshot or /verif)
+out=$(mktemp -d /dev/shm/rsim-runall-XXXXXX)
 rc_all=0
 for p in $(python3 -c "import json;print(' '.join(c['property_id'] for c in json.load(open('MANIFEST.json'))['checks']))"); do
-  VERIF_SEED=$seed /venv/bin/python -m rsim check $p --tier $tier > /tmp/rsim-$p.log 2>&1; rc=$?
-  echo "$p rc=$rc $(grep -c '^KNOWN-FINDING' /tmp/rsim-$p.log) known; $(tail -1 /tmp/rsim-$p.log | cut -c1-160)"
+  VERIF_SEED=$seed /venv/bin/python -m rsim check $p --tier $tier > $out/$p.log 2>&1; rc=$?
+  echo "$p rc=$rc $(grep -c '^KNOWN-FINDING' $out/$p.log) known; $(grep -E 'violation in run|HARNESS' $out/$p.log | head -1 | cut -c1-300) $(tail -1 $out/$p.log | cut -c1-160)"
   [ $rc -ne 0 ] && rc_all=1
 done
+rm -rf $out
 exit $rc_all
